@@ -78,7 +78,7 @@ theorem next_spec (ws : List W) (t : Int) (h : ws ≠ []) :
     obtain ⟨hl, hs, hw, _⟩ := scan_spec (w1 :: w2 :: rest) 0 0 0
     have hf := scan_flag_lt (w1 :: w2 :: rest) hne
     have hf' : (scan (w1 :: w2 :: rest) 0 0 0).2 < (scan (w1 :: w2 :: rest) 0 0 0).1.length := by rw [hl]; exact hf
-    simp only [next, List.getElem?_eq_getElem hf']
+    simp only [next, charge, List.getElem?_eq_getElem hf']
     refine ⟨⟨_, rfl, ?_⟩, ?_, ?_⟩
     · rw [← hs]; exact List.mem_map_of_mem (List.getElem_mem hf')
     · rw [← hs]
